@@ -19,6 +19,9 @@ import (
 type c02Case struct {
 	Toks     []etok `json:"toks"`
 	ViaToken bool   `json:"viaTokens"` // feed through ParseTokens instead of ParseString
+	// Spelt: the same token sequence written with other separators (none where legal, blanks, line breaks, comments
+	// with arbitrary bodies), keyword letter case and <> / != spelling; it must get the same verdict and program
+	Spelt string `json:"spelt,omitempty"`
 }
 
 // libTokens builds the tokenizer-level token list for ParseTokens (values as the parser's own tokenizer
@@ -44,6 +47,14 @@ func libTokens(toks []etok) []*tokenizers.Token {
 		default:
 			out = append(out, tokenizers.NewToken(tokenizers.Symbol, t.S, 1, i+1))
 		}
+		if len(toks)%2 == 0 {
+			// a tokenizer that keeps blanks and comments delivers them in the list; the parser passes over them
+			if i%2 == 0 {
+				out = append(out, tokenizers.NewToken(tokenizers.Whitespace, " ", 1, i+1))
+			} else {
+				out = append(out, tokenizers.NewToken(tokenizers.Comment, "/* c */", 1, i+1))
+			}
+		}
 	}
 	return out
 }
@@ -57,9 +68,11 @@ func checkC02With(p *cparsers.ExpressionParser, c c02Case) *evid.Fail {
 	src := spellPlain(c.Toks)
 	tree, failAt := refParse(c.Toks)
 	var err error
+	callerList := libTokens(c.Toks) // the caller's list object: handed over twice, never changed by the parser
+	listBefore := append([]*tokenizers.Token{}, callerList...)
 	if g := guard(func() {
 		if c.ViaToken {
-			err = p.ParseTokens(libTokens(c.Toks))
+			err = p.ParseTokens(callerList)
 		} else {
 			err = p.ParseString(src)
 		}
@@ -94,7 +107,7 @@ func checkC02With(p *cparsers.ExpressionParser, c c02Case) *evid.Fail {
 	first := actualRPN(p.ResultTokens())
 	if g := guard(func() {
 		if c.ViaToken {
-			err2 = p.ParseTokens(libTokens(c.Toks))
+			err2 = p.ParseTokens(callerList)
 		} else {
 			err2 = p.ParseString(" " + src + " ")
 		}
@@ -102,6 +115,30 @@ func checkC02With(p *cparsers.ExpressionParser, c c02Case) *evid.Fail {
 		g.Sig = "resubmission:" + g.Sig
 		g.Msg = fmt.Sprintf("input %q submitted twice: %s", src, g.Msg)
 		return g
+	}
+	if c.ViaToken {
+		same := len(callerList) == len(listBefore)
+		for i := 0; same && i < len(listBefore); i++ {
+			same = callerList[i] == listBefore[i]
+		}
+		if !same {
+			return evid.F("callers-token-list-changed", "input %q: ParseTokens changed the list it was given (%d tokens before, %d after)", src, len(listBefore), len(callerList))
+		}
+	}
+	if c.Spelt != "" {
+		p3 := p
+		var err3 error
+		if g := guard(func() { err3 = p3.ParseString(c.Spelt) }); g != nil {
+			g.Msg = fmt.Sprintf("input %q: %s", c.Spelt, g.Msg)
+			return g
+		}
+		if (err3 == nil) != (err2 == nil) || (err3 == nil && strings.Join(first, " ") != strings.Join(actualRPN(p3.ResultTokens()), " ")) {
+			return evid.F("spelling-changes-verdict", "tokens %q give %v %v; written as %q they give %v %v", src, err2, first, c.Spelt, err3, actualRPN(p3.ResultTokens()))
+		}
+		// back to the plain spelling for the checks below
+		if g := guard(func() { err2 = p.ParseString(src) }); g != nil {
+			return g
+		}
 	}
 	if (err == nil) != (err2 == nil) || (err == nil && strings.Join(first, " ") != strings.Join(actualRPN(p.ResultTokens()), " ")) {
 		return evid.F("resubmission-differs", "input %q: first submission gives %v %v, the second on the same parser gives %v %v", src, err, first, err2, actualRPN(p.ResultTokens()))
@@ -201,7 +238,7 @@ var c02Alphabet = []etok{{"i", "\"NULL\""}, {"c", "1"}, {"i", "a"}, {"o", "("}, 
 
 // full vocabulary for the mutation test
 var c02Vocabulary = []etok{{"c", "1"}, {"c", "2.5"}, {"c", "'s'"}, {"c", "TRUE"}, {"c", "FALSE"}, {"i", "a"}, {"i", "b"}, {"i", "f"}, {"i", "\"q i\""},
-	{"i", "\"null\""}, {"i", "\"IS\""}, {"i", "\"not\""}, {"i", "\"and\""}, {"i", "\"In\""}, {"i", "\"like\""}, {"i", "\"true\""}, {"c", "'NULL'"}, {"c", "'and'"},
+	{"i", "\" \""}, {"i", "\"\t\""}, {"i", "\"null\""}, {"i", "\"IS\""}, {"i", "\"not\""}, {"i", "\"and\""}, {"i", "\"In\""}, {"i", "\"like\""}, {"i", "\"true\""}, {"c", "'NULL'"}, {"c", "'and'"},
 	{"o", "😀"}, {"o", "@"}, {"o", "$"}, {"o", "\uffff"}, {"o", "𝑥"}, {"o", "#"},
 	{"o", "("}, {"o", ")"}, {"o", "["}, {"o", "]"}, {"o", ","}, {"o", "+"}, {"o", "-"}, {"o", "*"}, {"o", "/"}, {"o", "%"}, {"o", "^"},
 	{"o", "="}, {"o", "<>"}, {"o", ">"}, {"o", "<"}, {"o", ">="}, {"o", "<="}, {"o", "<<"}, {"o", ">>"},
@@ -263,7 +300,7 @@ func TestC02_Exhaustive(t *testing.T) {
 			modes = 2
 		}
 		for m := 0; m < modes; m++ {
-			c := c02Case{toks, m == 1}
+			c := c02Case{Toks: toks, ViaToken: m == 1}
 			nt, lab := c02Classify(toks)
 			rec.Case(fmt.Sprintf("%d%s", m, tokKey(toks)), nt, func() interface{} { return spellPlain(toks) }, lab)
 			if f := checkC02With(p, c); f != nil {
@@ -327,7 +364,10 @@ func TestC02_RapidMutation(t *testing.T) {
 		if len(toks) == 0 {
 			rt.Skip("empty")
 		}
-		c := c02Case{toks, rapid.IntRange(0, 3).Draw(rt, "via") == 0}
+		c := c02Case{Toks: toks, ViaToken: rapid.IntRange(0, 3).Draw(rt, "via") == 0}
+		if !c.ViaToken && !hasJunk(toks) {
+			c.Spelt = spellRandom(rt, toks)
+		}
 		if c.ViaToken && rapid.IntRange(0, 3).Draw(rt, "eof") == 0 {
 			at := rapid.IntRange(0, len(toks)).Draw(rt, "eofat")
 			toks = append(append(append([]etok{}, toks[:at]...), etok{"e", ""}), toks[at:]...)
